@@ -168,6 +168,7 @@ def rule_D(ctx):
 
     class Index(orders.PyStub):
         csize, lsize = 4, 7
+        dX, dY = 25.0, 30.0
 
         def __init__(self, answers):
             self.answers = answers
@@ -487,6 +488,8 @@ def rule_E(ctx):
 
     class Index(orders.PyStub):
         csize, lsize = 4, 7
+        dX, dY = 25.0, 30.0              # (ground size of a cell: half the usual search radius, far above a radius of zero)
+        xmin, ymin, xmax, ymax = -400.0, -400.0, -300.0, -190.0
 
         def __init__(self, answers):
             self.answers = answers
